@@ -70,6 +70,11 @@ CHECKS = {
         text="A real transport.TarsServer runs a monitor-owned protocol that stamps each request when the framing layer has read it, blocks every handler on a gate and marks one-way requests; raw clients pipeline requests over 1..32 connections so that running, pool-queued and framed-not-started requests exist at the Shutdown call by construction; gate scripts (at once after 0 / 1.3 s, one by one, after the close notice, some never) and clients reset while their requests execute. Every request read before the Shutdown call whose gate opened must be answered exactly once before EOF (one-way: executed, not answered), every live connection must get the reconnect notice, Shutdown must return after the drain (not at its context) and by its context otherwise; pools 0/1/4.",
         note="Timing comes from the server's own pollers (500 ms tickers, 2 s idle rule); verdicts on the return time use the context deadline and a 2 s slack. With never-opened gates only requests that started are judged.",
         design="DESIGN.md §4 C12"),
+    "C08": dict(
+        technique="runtime monitor: token-joined client/server event logs of real ServantProxy callers against a scripted reordering/duplicating/forging server; interval join for id uniqueness",
+        text="G callers (2/16/128) share one real proxy (also: two communicators holding proxies for the same object) and call a scripted server that reads every request id with the reference codec and answers by script: in order, reversed or randomly permuted windows, duplicated x2/x5, late (1.5x timeout), dropped, plus responses for ids nobody waits for (far away, already completed at the client, not yet issued) and id-0 pushes. The response for id X carries the token of request X, so a returned foreign token is a misdelivery; ids seen on the wire must be non-zero and distinct among calls overlapping in time (interval join on a logical clock); the id counter is preset to MaxInt32-k to cross the wrap under load.",
+        note="Only the interleavings that occur; the scripts make the dangerous ones common. The id-wrap batches need the verifmsgid hook and are skipped (and reported as such in the evidence) when it does not compile against the tree.",
+        design="DESIGN.md §4 C08"),
 }
 
 NOT_BUILT_REASON = "check not built yet in this session (runtime-monitoring design exists in DESIGN.md §4; machinery in progress) — not claimed until its monitor runs silent on the unchanged tree"
